@@ -99,18 +99,17 @@ func (r *zstdByteStreamChunkReader) Read() ([]byte, error) {
 }
 
 func (r *zstdByteStreamChunkReader) Close() {
-	r.decoder.Close()
-
+	// Close the pipe and cancel the RPC first. This unblocks both
+	// the decoder, which may be waiting for more compressed data,
+	// and the goroutine started by Get(), which may be writing into
+	// the pipe or waiting for the next message. That goroutine is
+	// the only receiver of the gRPC stream, as Recv() may not be
+	// called concurrently.
 	r.pipeReader.Close()
 	r.cancel()
-
-	// Drain the gRPC stream.
-	for {
-		if _, err := r.client.Recv(); err != nil {
-			break
-		}
-	}
 	r.wg.Wait()
+
+	r.decoder.Close()
 }
 
 type zstdByteStreamWriter struct {
